@@ -95,6 +95,16 @@ fn drain_all(c: &mut ConsumingIovec<'_>, how: &str, keep: bool) -> Vec<u8> {
     out
 }
 
+/// FNV-1a over a byte stream, continued from `h` (a digest the trace compares, not an oracle: both sides are logged)
+fn fnv(mut h: u64, bytes: &[u8]) -> u64 {
+    for b in bytes {
+        h ^= *b as u64;
+        h = h.wrapping_mul(0x100000001b3);
+    }
+    h
+}
+const FNV0: u64 = 0xcbf29ce484222325;
+
 pub fn drive_footprint(ops: &str, trace: &str) {
     let runs = read_runs(ops);
     let mut out = Trace::create(trace);
@@ -130,6 +140,8 @@ pub fn drive_footprint(ops: &str, trace: &str) {
                     let mut enc = Encoder::new();
                     let mut dec = Decoder::new();
                     let mut producer_arena = ByteArena::new();
+                    // pipeline: digests and lengths of everything fed to the encoder and of everything the decoder gave back
+                    let (mut in_h, mut dec_h, mut dec_n) = (FNV0, FNV0, 0usize);
                     while streamed < total {
                         let n = sizes[i % sizes.len()].min(total - streamed).min(POOL / 2);
                         i += 1;
@@ -138,6 +150,9 @@ pub fn drive_footprint(ops: &str, trace: &str) {
                         }
                         let piece = &pool[off..off + n];
                         off += n;
+                        if kind == "pipeline" {
+                            in_h = fnv(in_h, piece);
+                        }
                         match m.as_str() {
                             "borrow" => enc.encode(piece),
                             "read" => {
@@ -179,7 +194,9 @@ pub fn drive_footprint(ops: &str, trace: &str) {
                                     }
                                 }
                                 sample(&mut out, streamed, "dec", &dec.consumer(), 0);
-                                drain_all(&mut dec.consumer(), &how, false);
+                                let got = drain_all(&mut dec.consumer(), &how, true);
+                                dec_h = fnv(dec_h, &got);
+                                dec_n += got.len();
                             }
                         }
                         sample(&mut out, streamed, "drained", &enc.consumer(), 0);
@@ -194,8 +211,24 @@ pub fn drive_footprint(ops: &str, trace: &str) {
                     let (n, st) = DRAINED.with(|c| c.get());
                     out.emit(&json!({"run":run.run,"ev":"lengths","in_hi":(streamed >> 20),"in_lo":(streamed & 0xFFFFF),
                                      "out_hi":(n >> 20),"out_lo":(n & 0xFFFFF),"stuff":st,"pending":rest.has_pending_backrefs() as u8}));
+                    if kind == "pipeline" {
+                        // the rest of the encoding goes through the decoder too; then the round trip is complete
+                        let tail = rest.flatten().unwrap_or_else(|v| v);
+                        let ok = dec.decode_copy(&tail).is_ok();
+                        let fin = if ok { dec.finish().ok() } else { None };
+                        let done = fin.is_some();
+                        if let Some(iov) = fin {
+                            for sl in iov.stable_prefix() {
+                                dec_h = fnv(dec_h, sl);
+                                dec_n += sl.len();
+                            }
+                        }
+                        out.emit(&json!({"run":run.run,"ev":"roundtrip","ok":done as u8,"same_len":(dec_n == streamed) as u8,
+                                         "same_digest":(dec_h == in_h) as u8,"drained_before_finish":(dec_n > 0) as u8}));
+                    } else {
+                        drop(dec);
+                    }
                     drop(rest);
-                    drop(dec);
                     drop(producer_arena);
                 }
                 "mt" => {
